@@ -111,6 +111,9 @@ func main() {
 	for _, p := range split(*syncsh) {
 		forEachGoFile(p, syncshimFile)
 	}
+	if *vclock != "" {
+		proposeWith()
+	}
 	b, _ := json.MarshalIndent(ov, "", " ")
 	must(os.WriteFile(filepath.Join(*out, "overlay.json"), b, 0o644))
 	hb, _ := json.MarshalIndent(hashes, "", " ")
